@@ -395,6 +395,76 @@ func TestC04WalletLevel(t *testing.T) {
 		}
 		wrongKey("end of history")
 
+		// The wallet's own road to watching-only (the remote-signer migration):
+		// InitAccounts with the watch-only flag, for accounts that exist already
+		// or with one more. Afterwards the reopened file is a watching-only
+		// wallet: no passphrase unlocks it, no call returns private material.
+		if rapid.IntRange(0, 2).Draw(t, "migrateToWatchOnly") == 0 {
+			s := scopes[rapid.IntRange(0, len(scopes)-1).Draw(t, "migrateScope")]
+			num := uint32(len(s.accounts) - 1)
+			if !locked && rapid.Bool().Draw(t, "oneMoreAccount") {
+				num++
+			}
+			sm, err := w.Manager.FetchScopedKeyManager(s.scope)
+			if err != nil {
+				t.Fatalf("INCONCLUSIVE: FetchScopedKeyManager: %v", err)
+			}
+			err = w.InitAccounts(sm, true, num)
+			c.Logf("InitAccounts(%v, watch-only, %d) locked=%v -> %v", s.scope, num, locked, err)
+			if err != nil {
+				t.Fatalf("INCONCLUSIVE: (functional failure, not a C04 matter) InitAccounts failed: %v, case:\n%s", err, c.Text())
+			}
+			if err := loader.UnloadWallet(); err != nil {
+				t.Fatalf("INCONCLUSIVE: UnloadWallet: %v", err)
+			}
+			scan("InitAccounts(watch-only)")
+			db, err := walletdb.Open("bdb", path, true, 10*time.Second, false)
+			if err != nil {
+				t.Fatalf("INCONCLUSIVE: reopening %s: %v", path, err)
+			}
+			verr := walletdb.View(db, func(tx walletdb.ReadTx) error {
+				ns := tx.ReadBucket([]byte("waddrmgr"))
+				mgr, err := waddrmgr.Open(ns, pubPass, params)
+				if err != nil {
+					return fmt.Errorf("INCONCLUSIVE: waddrmgr.Open on the migrated file: %v", err)
+				}
+				defer mgr.Close()
+				if !mgr.WatchOnly() {
+					return fmt.Errorf("C04 VIOLATED: after InitAccounts with the watch-only flag the reopened wallet is not watching-only")
+				}
+				if err := mgr.Unlock(ns, append([]byte(nil), privPass...)); err == nil {
+					return fmt.Errorf("C04 VIOLATED: after the watch-only migration the private passphrase still unlocks the reopened wallet")
+				}
+				for _, sc := range scopes {
+					for _, a := range sc.accounts {
+						for br := uint32(0); br < 2; br++ {
+							if a.next[br] == 0 {
+								continue
+							}
+							_, addr := oracleAddr(sc, a, br, 0)
+							ma, err := mgr.Address(ns, addr)
+							if err != nil {
+								return fmt.Errorf("C04 VIOLATED: after the watch-only migration the reopened wallet does not know the issued address %s: %v", addr, err)
+							}
+							if pk, ok := ma.(waddrmgr.ManagedPubKeyAddress); ok {
+								if k, err := pk.PrivKey(); err == nil || k != nil {
+									return fmt.Errorf("C04 VIOLATED: after the watch-only migration PrivKey() of %s returns a key", addr)
+								}
+							}
+						}
+					}
+				}
+				return nil
+			})
+			db.Close()
+			if verr != nil {
+				t.Fatalf("%v, case:\n%s", verr, c.Text())
+			}
+			c.Class("watch-only-migration-through-InitAccounts")
+			// the loader has nothing loaded any more
+			w = nil
+		}
+
 		for k, v := range set.CountByClass() {
 			c.Class("needle:" + k)
 			g.Count("needles:"+k, int64(v))
